@@ -100,9 +100,9 @@ theorem atomic_roundtrip (s : Simp) (cs : CState) (op t ao al ro rl : Nat) (rest
     or pops the top one (the running frame ended): a suspended caller — its state, its snapshot — is never modified
     while its callee, and whatever that calls, runs. -/
 theorem conts_discipline {s : Simp} {o : Oracle} {cfg : Cfg} {codes : List (Nat × List Nat)} {cs cs' : CState}
-    (hnc : cfg.create = false ∨ cfg.balances = false) (h : cs' ∈ (stepC s o cfg codes cs).next) :
+    (h : cs' ∈ (stepC s o cfg codes cs).next) :
     cs'.conts = cs.conts ∨ (∃ k, cs'.conts = k :: cs.conts) ∨ (∃ k, cs.conts = k :: cs'.conts) :=
-  stepC_conts hnc h
+  stepC_conts h
 
 /-! ### CREATE on the model (`Cfg.create` on; no simulation yet — see the header of Model.SevmCalls) -/
 
